@@ -216,6 +216,46 @@ class C01(Prop):
                                'expr': ['p', 1]}],
                     'bursts': [[[0, 'api', 0, 1], [5, 'api', 1, 5]], [[0, 'api', 0, 0]], [[0, 'api', 0, 1]],
                                [[0, 'readd', 1]], [[0, 'api', 1, 4]]]})
+        # three expression assignments at once -> a convoy of polling passes; the last re-evaluation of p2 is dequeued, and
+        # its write submitted, exactly when a quiescence window may end (a write queued but not yet started is pending)
+        out.append({'ports': [{'type': 'boolean',
+                               'reg': 0,
+                               'rlat': [20],
+                               'wlat': [7],
+                               'expr': None,
+                               'enabled': True,
+                               'hlat': [0, 20, 300],
+                               'kind': 'sensor'},
+                              {'type': 'number',
+                               'reg': 5,
+                               'rlat': [0, 20, 0],
+                               'wlat': [0, 7],
+                               'expr': None,
+                               'enabled': True,
+                               'xf': True,
+                               'hlat': [300, 0, 120],
+                               'kind': 'sensor'},
+                              {'type': 'number',
+                               'reg': 1,
+                               'rlat': [20, 20],
+                               'wlat': [20],
+                               'expr': None,
+                               'enabled': True,
+                               'kind': 'virtual'},
+                              {'type': 'boolean',
+                               'reg': None,
+                               'rlat': [0],
+                               'wlat': [0],
+                               'expr': ['MIN', ['p', 0], ['lit', 5]],
+                               'enabled': True,
+                               'virt': True,
+                               'kind': 'virtual'}],
+                    'bursts': [[[131, 'api', 2, -1]],
+                               [[0, 'expr', 1, ['IF', ['p', 0], ['p', 0], ['p', 0]]], [0, 'src', 0, 1],
+                                [0, 'expr', 3,
+                                 ['SUB', ['IF', ['lit', 5], ['p', 2], ['p', 2]], ['IF', ['p', 2], ['una'], ['p', 1]]]],
+                                [0, 'expr', 2, ['p', 1]]],
+                               [[146, 'en', 3, False]], [[0, 'src', 0, 0]]]})
         # third defect (force-capture): expression port enabled while a (long) polling pass is past its turn
         out.append({'ports': [dict(src, reg=None),
                               {'type': 'number', 'reg': 3, 'rlat': [0], 'wlat': [0], 'expr': ['p', 0], 'enabled': False},
@@ -486,6 +526,7 @@ class C01(Prop):
         (possible only after a behaviour change of the scheduler) must not hang the check."""
         def on_alarm(signum, frame):
             raise HubStuck()
+        self.hub.fresh_loop()
         loop = self.hub.loop
         old = signal.signal(signal.SIGALRM, on_alarm)
         signal.setitimer(signal.ITIMER_REAL, STUCK_AFTER_S)
